@@ -27,17 +27,58 @@ CWD = os.getcwdb()
 
 _SITE = {}
 
-TREE_DIRS = ["root", "root/sub", "root/sub2", "root/...", "root/%2e%2e", "root/sub/deep", "rootsecret", "roo"]
+TREE_DIRS = ["root", "root/sub", "root/sub2", "root/...", "root/%2e%2e", "root/sub/deep", "rootsecret", "roo", "root.d",
+             "root/page.d", "root/sub3"]
 TREE_FILES = ["root/a.txt", "root/sub/b.txt", "root/sub/index.html", "root/sp ace.txt", "root/é.txt",
               "root/.hidden", "root/.../x", "root/%2e%2e/y", "root/sub/deep/index.html", "root/sub2/c",
-              "root/root", "rootsecret/s.txt", "secret.txt", "roo/t.txt", "a.txt"]
+              "root/root", "rootsecret/s.txt", "secret.txt", "roo/t.txt", "a.txt",
+              # for ignoredExts / processors: names reachable only through an ignored extension, processor
+              # extensions, and decoys next to the root that an escaping search would find
+              "root/page.html", "root/page.txt", "root/doc.txt", "root/script.cgi", "root/sub/tool.rpy",
+              "root/arch.tar.gz", "root/.hidden.txt", "root/sub/only.html", "root/noext", "root/star*",
+              "root.txt", "root.html", "root.cgi", "root.d/x.txt", "secret.txt.txt", "root/sub3/z.txt"]
 INDEX = ["index", "index.html", "index.htm", "index.rpy"]   # static.File.indexNames default
+
+# configurations of the root File: (ignoredExts, processor extensions, putChild names, custom childNotFound?)
+CONFIGS = [
+    {"ignored": [], "proc": [], "children": [], "notfound": False},
+    {"ignored": [".txt", ".html"], "proc": [".cgi", ".rpy"], "children": ["static", "a.txt", "..", "%2e"], "notfound": False},
+    {"ignored": ["*"], "proc": [".cgi"], "children": [""], "notfound": True},
+    {"ignored": ["", ".html", "*", ".gz"], "proc": [".gz", ".txt"], "children": ["sub"], "notfound": False},
+]
+
+
+def _make_site(cfg, root):
+    from twisted.web import resource, server, static
+
+    class Leaf(resource.Resource):
+        isLeaf = True
+
+        def __init__(self, tag):
+            resource.Resource.__init__(self)
+            self.tag = tag
+
+        def render(self, request):
+            return b"@@" + self.tag + b"|" + b"/".join(H(x).encode() for x in request.postpath) + b"@@"
+
+    def processor(path, registry):
+        return Leaf(b"PROC|" + H(os.fsencode(path)).encode())
+
+    res = static.File(root, ignoredExts=list(cfg["ignored"]))
+    assert list(res.indexNames) == INDEX, res.indexNames
+    res.processors = {e: processor for e in cfg["proc"]}
+    for i, name in enumerate(cfg["children"]):
+        res.putChild(name.encode(), Leaf(b"CHILD|%d" % i))
+    if cfg["notfound"]:
+        res.childNotFound = Leaf(b"NOTFOUND")
+    site = server.Site(res)
+    site.displayTracebacks = False
+    return site
 
 
 def _site():
     if _SITE:
         return _SITE
-    from twisted.web import server, static
 
     base = os.path.realpath(tempfile.mkdtemp(prefix="verif_c26_"))
     atexit.register(shutil.rmtree, base, True)
@@ -47,10 +88,7 @@ def _site():
         with open(os.path.join(base, f), "w") as fh:
             fh.write("SECRET" if not f.startswith("root/") else "public")
     root = os.path.join(base, "root")
-    res = static.File(root)
-    assert list(res.indexNames) == INDEX, res.indexNames
-    site = server.Site(res)
-    site.displayTracebacks = False
+    sites = [_make_site(cfg, root) for cfg in CONFIGS]
     # failures logged by the code under test (undecodable segment, ValueError from os.stat) are expected
     # observations here, not noise for stderr
     from twisted.logger import globalLogBeginner
@@ -58,7 +96,7 @@ def _site():
         globalLogBeginner.beginLoggingTo([lambda event: None], redirectStandardIO=False, discardBuffer=True)
     except Exception:
         pass
-    log = []
+    log, stats = [], []
     state = {"on": False}
     ignore = tuple(os.fsencode(p) for p in {os.environ.get("VERIF_REPO", "/repo"), sys.prefix, sys.base_prefix,
                                            "/usr/lib", "/venv"})
@@ -79,19 +117,39 @@ def _site():
             log.append(("o" if event == "open" else "l", pb))
 
     sys.addaudithook(hook)
-    _SITE.update(base=base, root=root, site=site, log=log, state=state)
+
+    # os.stat / os.lstat are not audit events: wrap them (oracle only; exists(), isdir(), getsize() end here)
+    def wrap(fn):
+        def stat(path, *a, **kw):
+            if state["on"] and isinstance(path, (str, bytes)):
+                try:
+                    pb = os.fsencode(path)
+                    if not (pb.startswith(ignore) or pb.endswith(b".py")):
+                        stats.append(pb)
+                except Exception:
+                    pass
+            return fn(path, *a, **kw)
+        return stat
+
+    import twisted.python.filepath as fpm
+    os.stat, os.lstat = wrap(os.stat), wrap(os.lstat)
+    for name in ("stat", "lstat"):
+        if hasattr(fpm, name):
+            setattr(fpm, name, wrap(getattr(fpm, name)))
+    _SITE.update(base=base, root=root, sites=sites, log=log, stats=stats, state=state)
     return _SITE
 
 
-def _static(url: bytes) -> str:
+def _static(url: bytes, cfg: int = 0) -> str:
     from twisted.internet.error import ConnectionDone
     from twisted.internet.testing import StringTransport
     from twisted.python.failure import Failure as TFailure
 
     S = _site()
-    proto = S["site"].buildProtocol(None)
+    proto = S["sites"][cfg].buildProtocol(None)
     t = StringTransport()
     del S["log"][:]
+    del S["stats"][:]
     S["state"]["on"] = True
     try:
         proto.makeConnection(t)
@@ -99,11 +157,21 @@ def _static(url: bytes) -> str:
     finally:
         S["state"]["on"] = False
     acc = list(S["log"])
-    head = t.value().split(b"\r\n", 1)[0]
+    value = t.value()
+    head = value.split(b"\r\n", 1)[0]
     proto.connectionLost(TFailure(ConnectionDone()))
     code = head.split(b" ")[1].decode() if head.startswith(b"HTTP/") and len(head.split(b" ")) > 1 else ""
     opened = [p for k, p in acc if k == "o"]
-    if code == "" and opened:
+    leaf = value.split(b"@@")[1] if value.count(b"@@") >= 2 else None
+    if leaf is not None and leaf.startswith(b"PROC|"):
+        _, path, rest = leaf.split(b"|")
+        out = "P:" + path.decode() + ":" + rest.decode()
+    elif leaf is not None and leaf.startswith(b"CHILD|"):
+        _, i, rest = leaf.split(b"|")
+        out = "C:" + i.decode() + ":" + rest.decode()
+    elif leaf is not None and leaf.startswith(b"NOTFOUND"):
+        out = "N"
+    elif code == "" and opened:
         out = "S:" + H(opened[-1])
     elif code == "200" and acc and acc[-1][0] == "l":
         out = "L:" + H(acc[-1][1])
@@ -115,7 +183,7 @@ def _static(url: bytes) -> str:
         out = "E"
     else:
         out = "?" + code
-    return ",".join(k + ":" + H(p) for k, p in acc) + "|" + out
+    return ",".join(k + ":" + H(p) for k, p in acc) + "|" + out + " #" + ",".join(H(p) for p in sorted(set(S["stats"])))
 
 
 # --------------------------------------------------------------------------------------------
@@ -145,7 +213,10 @@ def impl(case) -> str:
         except UnicodeDecodeError:
             return H(u) + ":b"
     if k == "static":
-        return _static(B(case["url"]))
+        return _static(B(case["url"]), case.get("cfg", 0))
+    if k == "dir":
+        p = B(case["s"])
+        return H(os.path.dirname(p)) + "|" + H(os.path.basename(p)) + "|" + H(os.path.splitext(p)[1])
     from twisted.python.filepath import FilePath, InsecurePath
 
     t = case.get("t", "bb")
@@ -179,18 +250,26 @@ def _clean(segs):
 
 def oracle(case, obs):
     k = case["k"]
-    if k in ("norm", "join", "abs", "segs", "unq"):
+    if k in ("norm", "join", "abs", "segs", "unq", "dir"):
         return None
     if k == "static":
         S = _site()
         root = os.fsencode(S["root"])
-        acc = obs.split("|")[0]
-        for item in filter(None, acc.split(",")):
-            p = B(item[2:])
+        head, _, stats = obs.partition(" #")
+        acc, _, outcome = head.partition("|")
+        touched = [(item[0], B(item[2:])) for item in filter(None, acc.split(","))]
+        if outcome.startswith("P:"):
+            touched.append(("processor", B(outcome[2:].split(":")[0])))
+        # os.stat / os.lstat (exists, isdir, getsize): ancestors of the root are legitimately stat'ed by nobody
+        touched += [("stat", B(h)) for h in filter(None, stats.split(","))]
+        for kind, p in touched:
+            if kind == "stat" and b"\x00" in p:
+                continue            # os.stat refuses the name itself (ValueError) before touching anything
             real = os.path.realpath(p)
             if not (real == root or real.startswith(root + b"/")) or b"\x00" in p:
-                return Failure(case, f"static.File accessed {p!r}, outside its root {root!r}", "static-escape")
-        if obs.startswith("?") or "|?" in obs:
+                return Failure(case, f"static.File accessed {p!r} ({kind}), outside its root {root!r}",
+                               "static-escape" if kind != "stat" else "static-stat-escape")
+        if head.startswith("?") or "|?" in head:
             return Failure(case, "unexpected response " + obs, "static-unexpected-response")
         return None
     if obs == "X":
@@ -266,6 +345,13 @@ URLSEGS = [b"a.txt", b"sub", b"b.txt", b"index.html", b"..", b"%2e%2e", b".", b"
            b"%c0%ae%c0%ae", b"%e0%80%ae", b"roo", b"t.txt", b"%2e%2e%5c", b"a.txt%00", b"sub%2fb.txt", b"%2fetc"]
 
 
+# segments aimed at ignoredExts ("page" -> page.html / page.txt), processors (.cgi .rpy .gz .txt), putChild names
+XSEGS = [b"page", b"doc", b"script", b"script.cgi", b"tool", b"tool.rpy", b"arch.tar", b"arch", b"arch.tar.gz", b"noext",
+         b"only", b".hidden", b"static", b"%2e", b"%252e", b"sub", b"star", b"star*", b"star%2a", b"root", b".", b"..",
+         b"%2e%2e", b"..%2froot", b"%2e%2e%2froot", b"secret.txt", b"secret", b"page.d", b"page.", b"sub3", b"z",
+         b"rest", b"a.txt", b"a", b"%00", b"page%00", b"..%2fsecret.txt", b"..%2fsecret", b"", b"x"]
+
+
 def gen(rng, tier):
     quick = tier == "quick"
     cases = []
@@ -316,6 +402,19 @@ def gen(rng, tier):
         if rng.random() < 0.15:
             segs.append(b"%" + b"%02x" % rng.randrange(256) + rng.choice(URLSEGS))
         cases.append({"k": "static", "url": H(b"/" + b"/".join(segs))})
+    # -- the same with ignoredExts / processors / putChild children / a custom childNotFound configured
+    for _ in range(500 if quick else 4000):
+        n = rng.randrange(1, 5)
+        segs = [rng.choice(URLSEGS + XSEGS + XSEGS) for _ in range(n)]
+        cases.append({"k": "static", "cfg": rng.randrange(1, len(CONFIGS)), "url": H(b"/" + b"/".join(segs))})
+    for cfg in range(1, len(CONFIGS)):
+        for a in XSEGS:
+            cases.append({"k": "static", "cfg": cfg, "url": H(b"/" + a)})
+            cases.append({"k": "static", "cfg": cfg, "url": H(b"/sub/" + a)})
+    for s_ in _exhaustive(alpha, 4 if quick else 6):
+        cases.append({"k": "dir", "s": H(s_)})
+    for _ in range(150 if quick else 3000):
+        cases.append({"k": "dir", "s": H(_rand_path(rng, 6) + rng.choice([b"", b"x.tar.gz", b".hidden", b"..a", b"a.", b"..."]))})
     if not quick:
         for a in URLSEGS:
             for b in URLSEGS:
@@ -345,6 +444,11 @@ def corpus():
               b"/%2e%2e%2frootsecret/s.txt", b"/a%00b", b"/%ff", b"//a.txt", b"/.", b"/sub/%2e%2e/a.txt", b"/./a.txt",
               b"/sub//b.txt", b"/a.txt/x", b"/..%2frootsecret%2fs.txt", b"/sub/deep/", b"/%2e%2e/y", b"/.../x"]:
         c.append({"k": "static", "url": H(u)})
+    for cfg, u in [(1, b"/page"), (1, b"/doc"), (1, b"/script.cgi/rest/x"), (1, b"/sub/tool.rpy"), (1, b"/static/a/b"),
+                   (1, b"/a.txt"), (1, b"/%2e/x"), (1, b"/../secret"), (1, b"/..%2fsecret"), (2, b"/page"), (2, b"/arch"),
+                   (2, b"/"), (2, b"/sub/only"), (2, b"/nope"), (2, b"/."), (2, b"/..%2froot"), (2, b"/star"),
+                   (3, b"/arch.tar"), (3, b"/doc"), (3, b"/sub/x"), (3, b"/noext"), (2, b"/sub3/"), (3, b"/%2e%2e%2fsecret.txt")]:
+        c.append({"k": "static", "cfg": cfg, "url": H(u)})
     return c
 
 
@@ -367,6 +471,32 @@ def _tree():
         p = os.path.dirname(p)
         dirs.append(p)
     return sorted(dirs), sorted(files)
+
+
+def _listing():
+    """os.listdir of every directory of the scratch tree, in the order the OS gives (siblingExtensionSearch's '*'
+    takes the first match in that order)"""
+    S = _site()
+    out = []
+    for d, ds, fs in os.walk(os.fsencode(S["base"])):
+        out.append((d, os.listdir(d)))
+    return out
+
+
+def _tree_defs():
+    if not _TREE:
+        d, f = _tree()
+        cb = coq_bytes
+        ls = coq_list([f"({cb(d_)}, {coq_list([cb(n) for n in names], 'bytes')})" for d_, names in _listing()],
+                      "(bytes * list bytes)%type")
+        _TREE.update(d=coq_list([cb(x) for x in d], "bytes"), f=coq_list([cb(x) for x in f], "bytes"),
+                     i=coq_list([cb(x.encode()) for x in INDEX], "bytes"), l=ls)
+        for n, cfg in enumerate(CONFIGS):
+            _TREE[f"cfg{n}"] = (coq_list([cb(e.encode()) for e in cfg["ignored"]], "bytes") + " "
+                                + coq_list([cb(e.encode()) for e in cfg["proc"]], "bytes") + " "
+                                + coq_list([f"({cb(c.encode())}, {i}%nat)" for i, c in enumerate(cfg["children"])],
+                                           "(bytes * nat)%type"))
+    return _TREE
 
 
 _TREE = {}
@@ -396,26 +526,22 @@ def to_coq(case):
         url = B(case["url"])
         if b"?" in url or b"#" in url or any(c < 0x21 or c > 0x7E for c in url):
             return None
-        if not _TREE:
-            d, f = _tree()
-            _TREE.update(d=coq_list([cb(x) for x in d], "bytes"), f=coq_list([cb(x) for x in f], "bytes"),
-                         i=coq_list([cb(x.encode()) for x in INDEX], "bytes"))
+        T = _tree_defs()
         root = cb(os.fsencode(_site()["root"]))
-        return f"CStatic {cwd} {root} c26_dirs c26_files c26_index {cb(url)}"
+        return f"CStatic {cwd} {root} c26_dirs c26_files c26_listing c26_index {T['cfg%d' % case.get('cfg', 0)]} {cb(url)}"
+    if k == "dir":
+        return f"CDir {cb(B(case['s']))}"
     return None
 
 
 def _header():
     # the scratch tree is shared by all static cases of a run: define it once per Cases file
-    if not _TREE:
-        d, f = _tree()
-        cb = coq_bytes
-        _TREE.update(d=coq_list([cb(x) for x in d], "bytes"), f=coq_list([cb(x) for x in f], "bytes"),
-                     i=coq_list([cb(x.encode()) for x in INDEX], "bytes"))
+    T = _tree_defs()
     return ("From TwLib Require Import PyPath.\nFrom C26 Require Import Model Run.\n"
-            f"Definition c26_dirs : list bytes := {_TREE['d']}.\n"
-            f"Definition c26_files : list bytes := {_TREE['f']}.\n"
-            f"Definition c26_index : list bytes := {_TREE['i']}.\n")
+            f"Definition c26_dirs : list bytes := {T['d']}.\n"
+            f"Definition c26_files : list bytes := {T['f']}.\n"
+            f"Definition c26_listing : list (bytes * list bytes) := {T['l']}.\n"
+            f"Definition c26_index : list bytes := {T['i']}.\n")
 
 
 class _LazyHeader(str):
@@ -441,7 +567,7 @@ def shrink(case):
 def histogram(case, obs):
     k = case["k"]
     if k == "static":
-        return "static:" + obs.split("|")[-1][:1]
+        return "static" + (":cfg%d:" % case["cfg"] if case.get("cfg") else ":") + obs.split(" #")[0].split("|")[-1][:1]
     if k in ("child", "pre", "desc"):
         return k + ":" + ("InsecurePath" if obs == "X" else "path")
     return "lib:" + k
@@ -453,6 +579,7 @@ SPEC = Spec(
     coq_header=_LazyHeader(""),
     coq_fn="run_show",
     to_coq=to_coq,
+    model_equal=lambda c, a, b: a.split(" #")[0] == b,
     nontrivial=lambda c, o: c["k"] in ("child", "pre", "desc", "static"),
     histogram=histogram,
     rule="os.path.normpath for every string over {'/','.','a'} up to length 5 (thorough 7), abspath/split up to 3 (5) "
